@@ -7,3 +7,5 @@ def check(rep, tier):
     rep.run(tracer_trace.run, rep, tier, interfere=True, only=("TR-fresh", "TR-id", "TR-start"))
     from contracts import discipline
     rep.run(discipline.run_frame, rep, tier)
+    from contracts import diffops
+    rep.run(diffops.run_nary, rep, tier, clauses=("UN-reentrant",))
